@@ -132,6 +132,17 @@ func c05(r *Run) {
 			wit := px.heldWitness(fn, site, kP, entryHeld, s)
 			r.ob("C05.R1:"+sk, "needLock=true: the runner takes the processing lock itself, so it is not called from a point where the caller already holds that lock (its trylock would fail and nobody would ever run the callbacks)", fn, site, wit != nil, "the caller does not hold processing here", true)
 		}
+		// R12': a teardown without PollDetach is justified only by "the poller closed it" (its hang-up helper detached the
+		// descriptor): outside the hang-up path a constant needDetach=false needs that fact - a Close that lost closeBy may have
+		// lost it to another user Close/Detach which has not detached yet, and whoever gets the lock first runs the callbacks
+		if nd, okc := argConst(callCommon(site), 1); okc && nd == 0 && fn != ro.onHup {
+			statusCall := isCallOf(ro.status, ro.kClosing)
+			byPoller := anyAtom(cmpAtom(statusCall, isConstEq(ro.whoPoller), eqRel), callResultAtom(ro.isCloseBy, true, ro.whoPoller))
+			base := &Search{Fn: fn}
+			wit := guardWitness(fn, site, byPoller, base)
+			s.Visited += base.Visited
+			r.obW("C05.R12:no-detach-only-if-closed-by-poller:"+w.FnName(fn), "outside the hang-up path the callbacks are run without PollDetach only after seeing that the poller closed the connection: the loser of closeBy(user) may have lost to a concurrent user Close/Detach that has not detached yet - the registration would never be released (and a detached descriptor would stay registered on a slot that is freed and re-used)", fn, site, wit, "guarded by closing == poller")
+		}
 		// R2: the closer never unlocks
 		ss := &Search{Fn: fn}
 		wit := ss.Find([]Start{After(site)}, func(ins ssa.Instruction) bool {
@@ -799,6 +810,20 @@ func c05OnceGuards(r *Run, ro *Roles, s *Search) {
 		name := w.FnName(f)
 		ok := f == ro.finalizer || (f.Parent() != nil && w.FnName(f.Parent()) == "(*netFD).connect")
 		r.ob("C05.R6:who-frees-slot:"+name, "FDOperator.Free is called only by the connection finalizer and by the dial path's deferred clean-up", f, site, ok, "caller "+name, false)
+	}
+	// Free always hands the slot back (a "not in use" slot may be one that was allocated but never registered: a connection
+	// closed inside OnPrepare), and the poller detaches a hung-up descriptor before it gives the slot's token back (after
+	// that a concurrent Close may free the slot under it: C11.R1)
+	{
+		fr := ro.opFree
+		isPollFree := func(i ssa.Instruction) bool {
+			cc := callCommon(i)
+			return cc != nil && cc.IsInvoke() && cc.Method.Name() == "Free"
+		}
+		r.mustPass("C05.R6:free-always-returns-the-slot", "FDOperator.Free hands the slot to its poller's cache on every path: a slot that was allocated but never registered looks 'unused' too, and skipping it leaks the slot of every connection closed or detached inside OnPrepare", fr, nil, []Start{Entry(fr)}, isPollFree, nil, nil, "poll.Free(op) on every path")
+	}
+	if r.keep == nil {
+		r.borrow([]string{"C11.R1:detach-before-release", "C11.R1:queue-before-release"}, "C11.R1", "C05.R14", func() { c11(r) })
 	}
 	// the finalizer waits for the flushing lock (stop(flushing) spins): whoever is parked in Flush must have been woken
 	// before the callbacks run, or the descriptor is never closed and Close never returns
